@@ -228,7 +228,7 @@ class World:
         self.xd, self.contents, self.g, self.recipe = xd, contents, g, recipe
         self.m = xd.Manager()
         d = contents
-        self.d = {"a": d["a"], "b": d["b"], "c": d["c"], "n": U.Obj(x=d["n"].x, y=d["n"].y, z=d["n"].z), "l": list(d["l"])}
+        self.d = U.copy_contents(d)
         self.r = self.m.ref(self.d, "d")
         self.fr = self.m.ref(U.FContainer(g), "f")
         recipe(self)
